@@ -23,6 +23,8 @@ def main():
     ap.add_argument("--props")
     ap.add_argument("--seed", default="1")
     ap.add_argument("--no-demo", action="store_true")
+    ap.add_argument("--meta", default="meta.json")
+    ap.add_argument("--store", help="store the confirmed seed as /verif/seeded/<name>/")
     a = ap.parse_args()
     d = os.path.abspath(a.dir)
     patch = os.path.join(d, a.patch)
@@ -56,7 +58,7 @@ def main():
             rc, out = sh(["timeout", "300", "/venv/bin/python", "_demo.py"], cwd=wt, env=env)
             res["demo_patched_rc"] = rc
             res["demo_patched_tail"] = out.strip()[-300:]
-        props = a.props.split(",") if a.props else [json.load(open(os.path.join(d, "meta.json")))["property"]]
+        props = a.props.split(",") if a.props else [json.load(open(os.path.join(d, a.meta)))["property"]]
         res["checks"] = {}
         for pid in props:
             t0 = time.time()
@@ -67,6 +69,21 @@ def main():
             if rc == 2:
                 res["checks"][pid]["err"] = out[-400:]
         print(json.dumps(res))
+        confirmed = res.get("demo_clean_rc") == 0 and res.get("suite_rc") == 0 and res.get("demo_patched_rc") not in (0, None)
+        if a.store and confirmed:
+            dst = os.path.join(VERIF, "seeded", a.store)
+            os.makedirs(dst, exist_ok=True)
+            shutil.copy(patch, os.path.join(dst, "patch.diff"))
+            shutil.copy(demo, os.path.join(dst, "demo.py"))
+            meta = json.load(open(os.path.join(d, a.meta)))
+            meta["confirmed_by_us"] = dict(
+                ran="tools/seedcheck.py: scratch worktree of /repo HEAD; demo on clean tree; git apply patch; repository suite; demo on patched tree; our check(s) with BPVERIF_REPO=<worktree>",
+                demo_clean_rc=res["demo_clean_rc"], suite=res["suite_tail"], demo_patched_rc=res["demo_patched_rc"])
+            meta["our_checks"] = res["checks"]
+            meta["repo_head_when_confirmed"] = sh(["git", "-C", "/repo", "rev-parse", "--short", "HEAD"])[1].strip()
+            json.dump(meta, open(os.path.join(dst, "meta.json"), "w"), indent=1)
+        elif a.store:
+            sys.stderr.write("NOT stored: seed not confirmed\n")
     finally:
         sh(["git", "-C", "/repo", "worktree", "remove", "--force", wt])
         shutil.rmtree(wt, ignore_errors=True)
